@@ -425,7 +425,7 @@ func C10(tier rt.Tier) int {
 						for b, es := range proofs {
 							structural(es, pool, func(t proofElems, label string) { check(b, encodeProof(t), t, label) })
 							// (5) every single-bit flip of the serialised proof
-							if len(c.keys) > flipKeys {
+							if len(c.keys) > flipKeys || (tier == rt.Quick && mode == 1) {
 								continue
 							}
 							raw := encodeProof(es)
